@@ -288,12 +288,35 @@ impl<I: 'static> Vt<I> {
 }
 
 /// A user-defined inner type for the "anything else" family.
-#[derive(
-    Clone, Copy, Debug, PartialEq, Eq, PartialOrd, Ord, Hash, Default, serde::Serialize, serde::Deserialize,
-)]
+#[derive(Clone, Copy, Debug, PartialEq, Eq, PartialOrd, Ord, Hash, Default)]
 pub struct Point {
     pub x: i16,
     pub y: i16,
+}
+
+/// Like `IpAddr`, `Uuid` or chrono's types, `Point` has two wire forms and asks the (de)serializer which one
+/// to use: the text `x;y` for human-readable formats, the pair `(x, y)` for binary ones. A newtype around it
+/// has to hand `is_human_readable()` through unchanged in both directions.
+impl serde::Serialize for Point {
+    fn serialize<S: serde::Serializer>(&self, s: S) -> Result<S::Ok, S::Error> {
+        if s.is_human_readable() {
+            s.serialize_str(&format!("{};{}", self.x, self.y))
+        } else {
+            serde::Serialize::serialize(&(self.x, self.y), s)
+        }
+    }
+}
+
+impl<'de> serde::Deserialize<'de> for Point {
+    fn deserialize<D: serde::Deserializer<'de>>(d: D) -> Result<Self, D::Error> {
+        if d.is_human_readable() {
+            let s = <String as serde::Deserialize>::deserialize(d)?;
+            <Point as std::str::FromStr>::from_str(&s).map_err(|e| serde::de::Error::custom(format!("{e:?}")))
+        } else {
+            let (x, y) = <(i16, i16) as serde::Deserialize>::deserialize(d)?;
+            Ok(Point { x, y })
+        }
+    }
 }
 
 impl std::fmt::Display for Point {
@@ -627,7 +650,7 @@ impl InnerTy for Point {
         json!({"x": self.x, "y": self.y})
     }
     fn from_json(v: &Value) -> Option<Self> {
-        serde_json::from_value(v.clone()).ok()
+        Some(Point { x: v.get("x")?.as_i64()? as i16, y: v.get("y")?.as_i64()? as i16 })
     }
     fn weight(&self) -> u128 {
         self.x.unsigned_abs() as u128 + self.y.unsigned_abs() as u128
